@@ -135,7 +135,10 @@ impl Check for C19 {
 				2 => clock_time_f64(ctx),
 				3 => clock_time_u64(ctx),
 				4 => easings(ctx),
-				_ => mappings(ctx),
+				_ => {
+					mappings(ctx);
+					distance_mappings(ctx);
+				}
 			});
 			if let Err(p) = r {
 				ctx.fail(format!("panic in lattice case {}: {}", which, p), p);
@@ -678,6 +681,14 @@ fn clock_time_u64(ctx: &mut Ctx) {
 			if a.partial_cmp(&b2) != want {
 				ctx.fail("clock time: ordering disagrees with (ticks, fraction)", format!("{:?} vs {:?}", a, b2));
 			}
+			// the comparison operators are the same order (each may be overridden on its own)
+			use std::cmp::Ordering as O;
+			let ops = [(a < b2, want == Some(O::Less), "<"), (a <= b2, matches!(want, Some(O::Less | O::Equal)), "<="), (a > b2, want == Some(O::Greater), ">"), (a >= b2, matches!(want, Some(O::Greater | O::Equal)), ">="), (a == b2, t1 == t2 && f1 == f2, "=="), (a != b2, !(t1 == t2 && f1 == f2), "!=")];
+			for (got, w, op) in ops {
+				if got != w {
+					ctx.fail("clock time: a comparison operator disagrees with the (ticks, fraction) order", format!("{:?} {} {:?} is {}", a, op, b2, got));
+				}
+			}
 			let c = ClockTime { clock: other, ticks: t2, fraction: f2 };
 			if a.partial_cmp(&c).is_some() {
 				ctx.fail("clock time: times of different clocks compare", format!("{:?} vs {:?}", a, c));
@@ -694,6 +705,47 @@ fn ease(e: Easing, x: f64) -> f64 {
 		easing: e,
 	}
 	.map(x)
+}
+
+/// a mapping whose input is the listener distance, evaluated where kira evaluates it (the volume of a spatial track): it clamps
+/// its input to the input range like every other mapping - also for ranges that do not start at 0 and for descending ranges
+fn distance_mappings(ctx: &mut Ctx) {
+	use crate::rig;
+	use kira::track::{MainTrackBuilder, SpatialTrackBuilder};
+	for (lo, hi) in [(0.0f64, 20.0f64), (10.0, 100.0), (100.0, 10.0), (5.0, 5.5)] {
+		for d in [0.0f32, 1.0, 5.0, 5.25, 10.0, 55.0, 100.0, 250.0] {
+			for e in [Easing::Linear, Easing::InPowi(2)] {
+				ctx.evals += 1;
+				let r = catch(|| {
+					let mut m = rig::manager(64, 4, rig::caps(2), MainTrackBuilder::new());
+					let l = m.add_listener(glam::Vec3::ZERO, glam::Quat::IDENTITY).expect("listener");
+					let map = Mapping { input_range: (lo, hi), output_range: (Decibels(-20.0), Decibels(0.0)), easing: e };
+					let mut t = m.add_spatial_sub_track(&l, glam::Vec3::new(d, 0.0, 0.0), SpatialTrackBuilder::new().attenuation_function(None).spatialization_strength(0.0).volume(kira::Value::FromListenerDistance(map))).expect("track");
+					let _h = t.play(rig::static_data(64, rig::dc_frames(4, 0.5)).loop_region(kira::sound::Region::from(..))).expect("play");
+					let mut out = vec![];
+					for _ in 0..3 {
+						rig::render_stereo(&mut m, 4, &mut out);
+					}
+					out[11].0
+				});
+				// reference: clamp the input to the range (either orientation), ease, interpolate the decibels
+				let x = ((d as f64 - lo) / (hi - lo)).clamp(0.0, 1.0);
+				let x = ease(e, x);
+				let want = 0.5 * 10f64.powf((-20.0 + 20.0 * x) / 20.0);
+				let what = format!("spatial track at distance {} from its listener (no attenuation, strength 0), volume = FromListenerDistance(Mapping {{ ({}, {}) -> (-20 dB, 0 dB), {:?} }}), DC 0.5", d, lo, hi, e);
+				match r {
+					Ok(got) => {
+						if (got as f64 - want).abs() > 1e-5 {
+							ctx.fail("mapping: a listener-distance mapping does not clamp its input to the input range (or is off the mapping) where it is evaluated", format!("{}: level {}, expected {}", what, got, want));
+						} else {
+							ctx.nontrivial_extra += 1;
+						}
+					}
+					Err(p) => ctx.fail(format!("panic: {} :: listener-distance mapping", p), what),
+				}
+			}
+		}
+	}
 }
 
 fn easings(ctx: &mut Ctx) {
